@@ -27,6 +27,7 @@ EXPLANATION = (
     ' (B9) no stage returns early under all()/any() over the batch unless the skipped work is restricted to the rows the test is about; (B10) the command line does not append result chunks under a column layout taken from chunk data.'
     ' (B11) no element is picked out of a set by iteration order; (B12) no min()/max() over a boolean-mask selection that can be empty.'
     " (B13) nobody edits a container display that is a parameter default (followed through self.x and self.stage.x, package-wide). (B14) where a per-reaction fault becomes the row's issue text the handlers include a catch-all or the awaited work is itself fenced. (B15) every per-batch statistic is additive: none derives from a set, a dict of values or an extreme."
+    ' (B11) also: an ordered value (list / tuple / joined text) made from a set in iteration order and handed on. (B16) the statements of a fault-recording handler cannot raise.'
 )
 ASSUMPTIONS = [
     "joblib returns results in submission order unless return_as='generator_unordered'",
